@@ -28,7 +28,7 @@ FORMS = ["embedding", "nn_gelu", "bias_kw"]
 
 
 def gen_cases(tier: str, seed: int) -> List[Dict[str, Any]]:
-    n = 320 if tier == "quick" else 5000
+    n = 320 if tier == "quick" else 15000
     cases = []
     for i in range(n):
         rng = rng_for(seed, PROPERTY, "prof", i)
